@@ -356,6 +356,44 @@ def shape_argv_clobber(rng, w, o):
             t["setUp"]["argv"] = True
 
 
+def shape_shared_class(rng, w):
+    """tests of different layers (and levels) that are instances of ONE test class, side by side in one suite: the
+    layer is declared on each instance"""
+    plain = [t for t in w["tests"] if t["kind"] in ("pass", "fail", "error") and not t.get("doctest")]
+    by_mod = {}
+    for t in plain:
+        by_mod.setdefault(t["module"], []).append(t)
+    gid = 0
+    for m, ts in by_mod.items():
+        if len({t["layer"] for t in ts}) < 2:
+            continue
+        chosen = rng.sample(ts, min(len(ts), rng.choice([2, 3, 4])))
+        ids = {t["id"] for t in chosen}
+
+        def prune(nodes):
+            out = []
+            for n_ in nodes:
+                if n_["t"] == "leaf":
+                    if n_["id"] not in ids:
+                        out.append(n_)
+                else:
+                    n_["kids"] = prune(n_["kids"])
+                    out.append(n_)
+            return out
+        unit = next(i for i, l in enumerate(w["layers"]) if l["kind"] == "unit")
+        w["modules"][m]["suites"] = prune(w["modules"][m]["suites"])
+        leaves = []
+        for t in chosen:
+            t["classGroup"] = gid
+            for k in ("rebind", "ownstream"):
+                t.pop(k, None)
+            leaves.append({"t": "leaf", "id": t["id"], "lyr": None if t["layer"] == unit else t["layer"]})
+        rng.shuffle(leaves)
+        w["modules"][m]["suites"].append({"t": "node", "kids": leaves, "lyr": None, "lvl": None})
+        gid += 1
+    return gid > 0
+
+
 def shape_substring_names(rng, w, o, parallel=False):
     """layer names that contain one another (S, Sx, Sxx ...; as regular expressions each finds itself in the
     later ones), every layer with a test, run in subprocesses (-j N, or layers that cannot be torn down)"""
